@@ -289,6 +289,13 @@ def directed_templates():
                                                      ("text", ("mixed", [("e", ("data", "a")), ("s", "|"), ("e", ("data", "b")), ("s", "|"), ("e", ("data", "a2"))]))])), txt("a")])
     tmpl([("elem", "view", [("slot:", "a", None)], [("elem", "view", [("slot:", "a", ("static", "a"))], [txt("a")]), txt("a"),
                                                    ("for", d("l"), "a", None, None, ("block", [txt("a")])), ("elem", "v", [], [txt("a")])]), txt("a")])
+    # scope variables at every position of array / object literals, also after several adjacent holes and spreads
+    holes = lambda *items: ("arr", [("hole",) if x is None else ("item", ("data", x)) for x in items])
+    pick = lambda arr, i: ("text", ("expr", ("dmember", arr, ("int", i))))
+    body = [("elem", "v", [], [pick(holes(None, None, "a"), 2)]), ("elem", "v", [], [pick(holes("b", None, None, None, "a"), 4)]),
+            ("elem", "v", [], [pick(holes(None, "a", None, None, "b"), 4)]), ("elem", "v", [], [pick(("arr", [("spread", ("data", "l")), ("hole",), ("hole",), ("item", ("data", "a"))]), 4)]),
+            ("elem", "v", [], [("text", ("expr", ("smember", ("obj", [("named", "p", False, ("data", "b")), ("spread", ("data", "o")), ("named", "q", False, ("data", "a"))]), "q")))])]
+    tmpl([("for", d("l"), "a", "b", None, ("block", body)), ("elem", "view", [], body)], slot_values=False)
     pool = tg.MODULE_POOL
     for mods in ([pool[0]], [pool[1], pool[0]]):
         nm0 = mods[0][0]
